@@ -695,3 +695,6 @@ func (L *Locks) AccessesOf(field *types.Var) []FieldAccess {
 	}
 	return out
 }
+
+// LockOp classifies a call as a mutex acquire/release.
+func LockOp(i ssa.Instruction) (types.Object, bool, LockMode, bool) { return lockOp(i) }
